@@ -65,6 +65,12 @@ pub enum WriteMode {
     /// Explorer choice per call among: everything, 1 byte, half, Pending (the latter at most
     /// `pending_budget` times per execution).
     Choice { pending_budget: usize },
+    /// Accept everything and hand it to the peer at once, but let the writing task yield once
+    /// before `sendmsg` reports completion. This puts a scheduling point right AFTER the write
+    /// took effect (what a preemption of the writing thread just after the system call returned
+    /// looks like, or a transport whose `sendmsg` finishes asynchronously): the peer's answer can
+    /// be processed by other tasks before the writer continues.
+    YieldAfter,
 }
 
 /// How `recvmsg` answers when data is available.
@@ -413,12 +419,17 @@ struct SendFut<'a> {
     tx: &'a ChanRef,
     buf: &'a [u8],
     fds: Vec<OwnedFd>,
+    /// `WriteMode::YieldAfter`: the write already happened, completion is reported on this poll.
+    done: Option<usize>,
 }
 
 impl Future for SendFut<'_> {
     type Output = io::Result<usize>;
     fn poll(self: Pin<&mut Self>, cx: &mut Context<'_>) -> Poll<Self::Output> {
         let this = self.get_mut();
+        if let Some(n) = this.done.take() {
+            return Poll::Ready(Ok(n));
+        }
         let mut c = this.tx.lock().unwrap();
         let call = c.send_calls;
         c.send_calls += 1;
@@ -439,7 +450,7 @@ impl Future for SendFut<'_> {
         }
         let len = this.buf.len();
         let n = match c.write_mode.clone() {
-            WriteMode::All => len,
+            WriteMode::All | WriteMode::YieldAfter => len,
             WriteMode::AtMost(m) => len.min(m.max(1)),
             WriteMode::Choice { pending_budget } => {
                 // options: all, 1, half, pending
@@ -486,9 +497,15 @@ impl Future for SendFut<'_> {
             c.q.push_back(chunk);
             c.read_waker.take()
         };
+        let yield_after = c.write_mode == WriteMode::YieldAfter;
         drop(c);
         if let Some(w) = w {
             w.wake();
+        }
+        if yield_after {
+            this.done = Some(n);
+            cx.waker().wake_by_ref();
+            return Poll::Pending;
         }
         Poll::Ready(Ok(n))
     }
@@ -505,6 +522,7 @@ impl WriteHalf for W {
             tx: &self.tx,
             buf,
             fds: owned,
+            done: None,
         }
         .await
     }
